@@ -28,47 +28,10 @@ enum { SK_OP = 0, SK_API, SK_PERM, SK_INTERNAL, SK_DEVICE, SK_OS, SK_HOOK };
 
 #define WEAK __attribute__((weak))
 
-/* ---- permutations */
-#define PERM(bits, id) \
-    extern void __real_tinyjambu_permutation_##bits(void *state, unsigned rounds) WEAK; \
-    void __wrap_tinyjambu_permutation_##bits(void *state, unsigned rounds) { \
-        sim_point_c(SK_PERM, id); \
-        __real_tinyjambu_permutation_##bits(state, rounds); \
-        sim_point_c(SK_PERM, id + 1); \
-    }
-PERM(128, 100)
-PERM(192, 102)
-PERM(256, 104)
+/* The plain yield-point wrappers (permutations, backend helpers, hash/hmac API) live in wrappers_asm.S:
+ * register-preserving trampolines that do not depend on the wrapped function's signature, so that a
+ * behaviour-preserving change of an internal prototype cannot make the harness call it wrongly. */
 
-/* ---- backend helpers */
-#define SETUP(bits, id) \
-    extern void __real_tinyjambu_setup_##bits(void *s, const unsigned char *n, unsigned char d) WEAK; \
-    void __wrap_tinyjambu_setup_##bits(void *s, const unsigned char *n, unsigned char d) { \
-        sim_point_c(SK_INTERNAL, id); __real_tinyjambu_setup_##bits(s, n, d); sim_point_c(SK_INTERNAL, id + 1); } \
-    extern void __real_tinyjambu_absorb_##bits(void *s, const unsigned char *p, size_t n, unsigned char d, unsigned r) WEAK; \
-    void __wrap_tinyjambu_absorb_##bits(void *s, const unsigned char *p, size_t n, unsigned char d, unsigned r) { \
-        sim_point_c(SK_INTERNAL, id + 2); __real_tinyjambu_absorb_##bits(s, p, n, d, r); sim_point_c(SK_INTERNAL, id + 3); } \
-    extern void __real_tinyjambu_generate_tag_##bits(void *s, unsigned char *t) WEAK; \
-    void __wrap_tinyjambu_generate_tag_##bits(void *s, unsigned char *t) { \
-        sim_point_c(SK_INTERNAL, id + 4); __real_tinyjambu_generate_tag_##bits(s, t); sim_point_c(SK_INTERNAL, id + 5); }
-SETUP(128, 110)
-SETUP(192, 120)
-SETUP(256, 130)
-
-extern int __real_tinyjambu_aead_check_tag(unsigned char *p, size_t n, const unsigned char *a, const unsigned char *b, size_t s) WEAK;
-int __wrap_tinyjambu_aead_check_tag(unsigned char *p, size_t n, const unsigned char *a, const unsigned char *b, size_t s) {
-    int r;
-    sim_point_c(SK_INTERNAL, 140);
-    r = __real_tinyjambu_aead_check_tag(p, n, a, b, s);
-    sim_point_c(SK_INTERNAL, 141);
-    return r;
-}
-extern void __real_tinyjambu_clean(void *buf, unsigned size) WEAK;
-void __wrap_tinyjambu_clean(void *buf, unsigned size) {
-    sim_point_c(SK_INTERNAL, 142);
-    __real_tinyjambu_clean(buf, size);
-    sim_point_c(SK_INTERNAL, 143);
-}
 extern int __real_tinyjambu_trng_generate(unsigned char *out) WEAK;
 int __wrap_tinyjambu_trng_generate(unsigned char *out) {
     int r, on;
@@ -79,47 +42,6 @@ int __wrap_tinyjambu_trng_generate(unsigned char *out) {
     sim_point_c(SK_INTERNAL, 145);
     return r;
 }
-
-/* ---- public hash / hmac API as used across modules (hmac->hash, hkdf/pbkdf2->hmac, prng->hash) */
-typedef struct tj_hash_state tj_hash_state;
-typedef struct tj_hmac_state tj_hmac_state;
-extern void __real_tinyjambu_hash(unsigned char *out, const unsigned char *in, size_t inlen) WEAK;
-void __wrap_tinyjambu_hash(unsigned char *out, const unsigned char *in, size_t inlen) {
-    sim_point_c(SK_API, 200); __real_tinyjambu_hash(out, in, inlen); sim_point_c(SK_API, 201); }
-extern void __real_tinyjambu_hash_init(tj_hash_state *s) WEAK;
-void __wrap_tinyjambu_hash_init(tj_hash_state *s) {
-    sim_point_c(SK_API, 202); __real_tinyjambu_hash_init(s); sim_point_c(SK_API, 203); }
-extern void __real_tinyjambu_hash_reinit(tj_hash_state *s) WEAK;
-void __wrap_tinyjambu_hash_reinit(tj_hash_state *s) {
-    sim_point_c(SK_API, 204); __real_tinyjambu_hash_reinit(s); sim_point_c(SK_API, 205); }
-extern void __real_tinyjambu_hash_free(tj_hash_state *s) WEAK;
-void __wrap_tinyjambu_hash_free(tj_hash_state *s) {
-    sim_point_c(SK_API, 206); __real_tinyjambu_hash_free(s); sim_point_c(SK_API, 207); }
-extern void __real_tinyjambu_hash_update(tj_hash_state *s, const unsigned char *in, size_t n) WEAK;
-void __wrap_tinyjambu_hash_update(tj_hash_state *s, const unsigned char *in, size_t n) {
-    sim_point_c(SK_API, 208); __real_tinyjambu_hash_update(s, in, n); sim_point_c(SK_API, 209); }
-extern void __real_tinyjambu_hash_finalize(tj_hash_state *s, unsigned char *out) WEAK;
-void __wrap_tinyjambu_hash_finalize(tj_hash_state *s, unsigned char *out) {
-    sim_point_c(SK_API, 210); __real_tinyjambu_hash_finalize(s, out); sim_point_c(SK_API, 211); }
-
-extern void __real_tinyjambu_hmac(unsigned char *out, const unsigned char *k, size_t kl, const unsigned char *in, size_t n) WEAK;
-void __wrap_tinyjambu_hmac(unsigned char *out, const unsigned char *k, size_t kl, const unsigned char *in, size_t n) {
-    sim_point_c(SK_API, 220); __real_tinyjambu_hmac(out, k, kl, in, n); sim_point_c(SK_API, 221); }
-extern void __real_tinyjambu_hmac_init(tj_hmac_state *s, const unsigned char *k, size_t kl) WEAK;
-void __wrap_tinyjambu_hmac_init(tj_hmac_state *s, const unsigned char *k, size_t kl) {
-    sim_point_c(SK_API, 222); __real_tinyjambu_hmac_init(s, k, kl); sim_point_c(SK_API, 223); }
-extern void __real_tinyjambu_hmac_reinit(tj_hmac_state *s, const unsigned char *k, size_t kl) WEAK;
-void __wrap_tinyjambu_hmac_reinit(tj_hmac_state *s, const unsigned char *k, size_t kl) {
-    sim_point_c(SK_API, 224); __real_tinyjambu_hmac_reinit(s, k, kl); sim_point_c(SK_API, 225); }
-extern void __real_tinyjambu_hmac_free(tj_hmac_state *s) WEAK;
-void __wrap_tinyjambu_hmac_free(tj_hmac_state *s) {
-    sim_point_c(SK_API, 226); __real_tinyjambu_hmac_free(s); sim_point_c(SK_API, 227); }
-extern void __real_tinyjambu_hmac_update(tj_hmac_state *s, const unsigned char *in, size_t n) WEAK;
-void __wrap_tinyjambu_hmac_update(tj_hmac_state *s, const unsigned char *in, size_t n) {
-    sim_point_c(SK_API, 228); __real_tinyjambu_hmac_update(s, in, n); sim_point_c(SK_API, 229); }
-extern void __real_tinyjambu_hmac_finalize(tj_hmac_state *s, const unsigned char *k, size_t kl, unsigned char *out) WEAK;
-void __wrap_tinyjambu_hmac_finalize(tj_hmac_state *s, const unsigned char *k, size_t kl, unsigned char *out) {
-    sim_point_c(SK_API, 230); __real_tinyjambu_hmac_finalize(s, k, kl, out); sim_point_c(SK_API, 231); }
 
 /* ---- guarded hook inside leaf loops (only present in -DTINYJAMBU_VERIF objects) */
 void tinyjambu_verif_point(int site) { sim_point_c(SK_HOOK, 300 + site); }
